@@ -176,23 +176,51 @@ def run(ctx):
             next((x.where(q) for x, q, ok_ in starts if not ok_), '%s:%d' % (fc.file, fc.line)), sample={'fn': 'ArxmlFile::check_version_compatibility', 'walk_receiver': 'model.root_element()'})
 
     # ---- mask ----
-    ovl = {l for l, n in cw.names.items() if n == 'overall_version_mask'}
-    ands = []
+    # accumulators: u32 locals that are updated as `acc = acc & x` (the walk's own one, and those of helpers that were extracted from it
+    # and are inlined here: their result is ANDed into the walk's accumulator in turn)
+    accs = {}
     for pos, s in cw.iter_stmts():
-        if s['k'] == 'assign' and s['dst']['l'] in ovl and not s['dst']['p'] and s['rv']['k'] == 'bin' and s['rv']['op'] == 'BitAnd':
-            other = [o for o in (s['rv']['a'], s['rv']['b']) if not (is_local_op(o) and o['l'] in ovl and not o['p'])]
-            ands.append((pos, other[0] if other else None))
+        if s['k'] == 'assign' and not s['dst']['p'] and s['rv']['k'] == 'bin' and s['rv']['op'] == 'BitAnd' and (cw.local_ty(s['dst']['l']) or '') == 'u32':
+            l = s['dst']['l']
+            other = [o for o in (s['rv']['a'], s['rv']['b']) if not (is_local_op(o) and o['l'] == l and not o['p'])]
+            if len(other) == 1:
+                accs.setdefault(l, []).append((pos, other[0]))
+    # the accumulator whose value is returned: the one named in the returned tuple, i.e. the one no other accumulator absorbs
+    from flow import source_locals as _srcl
+    inits = {l: [st for pos, st in cw.iter_stmts() if st['k'] == 'assign' and st['dst']['l'] == l and not st['dst']['p'] and not (st['rv']['k'] == 'bin' and st['rv']['op'] == 'BitAnd')]
+             + [t for pos, t in cw.iter_calls() if t['dst']['l'] == l and not t['dst']['p']] for l in accs}
+
+    def init_sources(l):
+        out = set()
+        for st in inits[l]:
+            if st['k'] == 'assign' and st['rv']['k'] in ('use', 'cast') and is_local_op(st['rv']['o']):
+                out |= _srcl(cw, st['rv']['o'], depth=12)
+        return out
+    absorbed = {l for l in accs for l2, sites in accs.items() if l2 != l and (any(l in _srcl(cw, o, depth=12) for pos, o in sites) or l in init_sources(l2))}
+    ovl = set(accs) - absorbed
+    ands = [(pos, o) for l, sites in accs.items() for pos, o in sites]
     masks = set()
     for pos, o in ands:
-        if o is not None:
-            masks |= {n for n in source_names(cw, o)}
+        masks |= {n for n in source_names(cw, o)}
     need = {'version_mask', 'value_version_mask', 'sub_element_mask'}
-    C.check(need <= masks, 'C17-SIB-mask', 'all-masks-anded', 'the overall mask does not accumulate every consulted mask: missing %s (so the returned mask can contain a version that an item excludes)' % sorted(need - masks),
-            sample={'accumulated': sorted(masks), 'count': len(ands)})
+    C.check(need <= masks and len(ovl) == 1 and all(l in ovl or l in absorbed for l in accs), 'C17-SIB-mask', 'all-masks-anded', 'the overall mask does not accumulate every consulted mask: missing %s (so the returned mask can contain a version that an item excludes)' % sorted(need - masks),
+            sample={'accumulated': sorted(masks), 'count': len(ands), 'accumulators': len(accs)})
     C.floor('C17-SIB-mask.and-sites', len(ands), 4)
-    # the returned tuple's mask is the accumulator; initial value is u32::MAX
-    init = [s for pos, s in cw.iter_stmts() if s['k'] == 'assign' and s['dst']['l'] in ovl and s['rv']['k'] == 'use' and s['rv']['o'].get('i') == '4294967295']
-    C.check(len(init) == 1, 'C17-SIB-mask', 'accumulator-starts-at-all-versions', 'the mask accumulator does not start at u32::MAX')
+    # every accumulator starts at u32::MAX - or at the result of another accumulator that it continues
+    def starts_ok(l):
+        if not inits[l]:
+            return False
+        for st in inits[l]:
+            if st['k'] != 'assign' or st['rv']['k'] not in ('use', 'cast'):
+                return False
+            o = st['rv']['o']
+            if not is_local_op(o):
+                if o.get('i') != '4294967295':
+                    return False
+            elif not (_srcl(cw, o, depth=12) & (set(accs) - {l})):
+                return False
+        return True
+    C.check(bool(accs) and all(starts_ok(l) for l in accs), 'C17-SIB-mask', 'accumulator-starts-at-all-versions', 'the mask accumulator does not start at u32::MAX')
     # every mask that is judged (compatible(mask)) or accumulated comes from the specification: a constant stands for "exists in every version",
     # which the tables do not promise for any item (SHORT-NAME of some element types is younger than the type)
     consts = []
@@ -290,7 +318,7 @@ def content_value_checked(cw):
     """the walk runs CharacterData::check_version_compatibility on character content items of the element (not only on attributes)"""
     for pos, t in cw.iter_calls():
         if call_matches(t, r'CharacterData>::check_version_compatibility$'):
-            n_, c_, f_ = deep_sources(cw, t['args'][0])
+            n_, c_, f_ = deep_sources(cw, t['args'][0], depth=20)
             if 'Attribute.content' not in f_ and ('ElementRaw.content' in f_ or any(c.endswith('character_data') or 'ElementContent' in c for c in c_) or 'ElementContent.0' in f_):
                 return True
     return False
